@@ -34,6 +34,7 @@ package json
 //@ func (*JSONTable).RenderTo
 //@   tags C07,C15,C09,C14
 //@   requires jt != nil && w != nil && tbl(jt.Table) && jtab(jt).nColumns <= 1099511627774
+//@   assigns heap[tabular.propertyImpl.properties], new(tabular.valueProperty), jtab(jt).ErrorContainer.errors_, elemscap(jtab(jt).ErrorContainer.errors_), ghost cbErrN, ghost cbErrLog, ghost cbCallN, ghost cbCallSelf, ghost cbCallOwner, ghost stage, ghost fires, ghost stageR, ghost firesR, ghost stageT, ghost stageC, ghost Wn, ghost Wchunk, ghost Wfailed, ghost jstate, ghost jobjs, new(bool), new(string), heap[[]byte]
 //@   requires [writer-ok] !Wfailed
 //@   requires [nothing-written-yet] jstate == 0
 //@   ensures [table-still-wellformed] tbl(jt.Table) @C09,C14
